@@ -1,0 +1,69 @@
+//! Verification hooks. Compiled only with the cargo feature `verif-hooks` (off by default).
+//! They let an external harness observe or dictate the bytes drawn by `random_bytes`
+//! and, when explicitly armed, the blocks returned by the SHAKE squeeze-blocks functions.
+use std::cell::RefCell;
+
+thread_local! {
+    static RNG_TAPE: RefCell<Option<Vec<u8>>> = RefCell::new(None);
+    static RNG_LOG: RefCell<Vec<Vec<u8>>> = RefCell::new(Vec::new());
+    static XOF_TAPE: RefCell<Option<Vec<u8>>> = RefCell::new(None);
+}
+
+/// Arm (Some) or disarm (None) the scripted RNG tape of the current thread.
+pub fn rng_script(tape: Option<Vec<u8>>) {
+    RNG_TAPE.with(|t| *t.borrow_mut() = tape);
+}
+
+/// Take the log of all requests (scripted or real) made on the current thread.
+pub fn rng_take_log() -> Vec<Vec<u8>> {
+    RNG_LOG.with(|l| std::mem::take(&mut *l.borrow_mut()))
+}
+
+/// Serve a request from the scripted tape if one is armed. Panics if the tape is too short.
+pub fn rng_tap(out: &mut [u8], n: usize) -> bool {
+    let served = RNG_TAPE.with(|t| {
+        let mut t = t.borrow_mut();
+        match t.as_mut() {
+            None => false,
+            Some(v) => {
+                assert!(v.len() >= n, "verif-hooks: rng tape exhausted");
+                let rest = v.split_off(n);
+                out[..n].copy_from_slice(v);
+                *v = rest;
+                true
+            }
+        }
+    });
+    if served {
+        rng_record(out, n);
+    }
+    served
+}
+
+/// Record a request.
+pub fn rng_record(out: &[u8], n: usize) {
+    RNG_LOG.with(|l| l.borrow_mut().push(out[..n].to_vec()));
+}
+
+/// Arm (Some) or disarm (None) the scripted XOF stream of the current thread.
+pub fn xof_script(tape: Option<Vec<u8>>) {
+    XOF_TAPE.with(|t| *t.borrow_mut() = tape);
+}
+
+/// Serve `nblocks` blocks of `rate` bytes from the scripted XOF stream if one is armed.
+pub fn xof_tap(out: &mut [u8], nblocks: usize, rate: usize) -> bool {
+    XOF_TAPE.with(|t| {
+        let mut t = t.borrow_mut();
+        match t.as_mut() {
+            None => false,
+            Some(v) => {
+                let n = nblocks * rate;
+                assert!(v.len() >= n, "verif-hooks: xof tape exhausted");
+                let rest = v.split_off(n);
+                out[..n].copy_from_slice(v);
+                *v = rest;
+                true
+            }
+        }
+    })
+}
